@@ -128,6 +128,15 @@ class Plan:
                 inline.setdefault(bounded[1], []).append(btxt)
             else:
                 where.append(f"{pr(named(bounded, names))}: {btxt}")
+            red = getattr(m, "redundant", {}).get(ki)
+            if red is not None and payload is not None:
+                # the same dispatch bound stated a second time without its binding (legal, redundant): (inline?, before?)
+                plain_b = dt.name + ("<" + ", ".join(dargs) + ">" if dargs else "")
+                if bounded[0] == "tp" and red[0]:
+                    lst = inline.setdefault(bounded[1], [])
+                    lst.insert(0 if red[1] else len(lst), plain_b)
+                else:
+                    where.insert(0 if red[1] else len(where), f"{pr(named(bounded, names))}: {plain_b}")
         for b, plain in m.extra:
             if b[0] == "tp" and hash((bi, plain)) % 2 == 0:
                 inline.setdefault(b[1], []).append(plain)
@@ -620,6 +629,8 @@ class PlanGen:
                 if r.random() < 0.5:
                     m.lifetimes.reverse()
             m.inline = {ki: r.random() < 0.6 for ki in range(len(keys))}
+            if extra_bounds and r.random() < 0.15:
+                m.redundant = {r.randrange(len(keys)): (r.random() < 0.5, r.random() < 0.5)}
             if extra_bounds and r.random() < 0.3:
                 m.extra.append((("tp", r.randrange(nparams)), self.pick(["Plain0", "Plain1"])))
             simple = [d_ for d_ in plan.dtraits if not (d_.arity or d_.lifetimes or d_.consts or d_.unsized_assoc)]
@@ -1051,6 +1062,43 @@ class PlanGen:
         return plan
 
     # ------------------------------------------------------------------ trait arguments (C16)
+    def diagonal_trait_args_plan(self):
+        """C16: `Kita<T> for S[T]` (the trait argument is a parameter of the self type) next to `Kita<M> for S[T]` for a
+        concrete M that implements no dispatch trait: two instantiations with the same self type that must stay
+        independent families (the ids are NOT instances of one another: T would have to be M and itself)."""
+        r = self.r
+        plan = Plan()
+        plan.dtraits = [DTrait("D0")]
+        plan.trait_generics = [("ty", "P0", "", None)]
+        plan.notes["keep_plain"] = True
+        plan.items = [("const", "NAME", False)] + ([("fn", "tag", False)] if r.random() < 0.5 else [])
+        wrap = self.pick([lambda t: t, lambda t: ("ctor", "Vec", [("aty", t)]), lambda t: ("tuple", [t, leaf("u8")])])
+        self_ty = wrap(("tp", 0))
+        marker = self.local(plan)
+        marks = r.sample(MARKERS, 4)
+        fams = []
+        for targ, ms in ((("tp", 0), marks[:2]), (leaf(marker), marks[2:])):
+            members = []
+            for mk in ms:
+                m = Member({}, [leaf(mk)], 1)
+                m.names = self.names(1)
+                m.inline = {0: r.random() < 0.6}
+                members.append(m)
+            fams.append(Family(copy.deepcopy(self_ty), [targ], 1, [Key(("tp", 0), 0, [], "G")], members))
+        if r.random() < 0.5:
+            fams.reverse()
+        plan.families = fams
+        self.populate(plan)
+        # every witness also asked with the other family's trait argument
+        extra = []
+        for ty, targs in plan.probes[:8]:
+            if targs and targs[0] != marker:
+                extra.append((ty, [marker]))
+        plan.probes += extra
+        self.finish_world(plan)
+        plan.notes["diagonal"] = True
+        return plan
+
     def trait_args_plan(self):
         r = self.r
         plan = Plan()
